@@ -51,7 +51,7 @@ fi
 # by the main check
 SUMMARY=""
 case "$PROP" in
-C07|C09|C10|C14|C16|C20)
+C07|C09|C10|C12|C13|C14|C15|C16|C18|C20)
   case " $* " in *" -replay "*) ;; *)
   SCHED_OK=1
   if [ -z "$OVERLAY" ] || ! go build -modfile="$MODFILE" -tags "verif sched" -overlay "$OVERLAY" -o "$BIN.sched" ./cmd/schedcheck > "$OV/build.log" 2>&1; then
